@@ -22,6 +22,6 @@ def load(prop):
 
 def match(known, violation):
     for e in known:
-        if violation.get('kind') == e.get('kind'):
+        if violation.get('kind') == e.get('kind') or violation.get('kind') in e.get('kinds', []):
             return e
     return None
